@@ -29,6 +29,7 @@ type c15World struct {
 	props []*rtProposer
 	ref   map[string]*rtMeta // reference row per channel (literal reading)
 	lex   map[string]*rtMeta // same, but epochs ordered lexicographically (channel epoch first)
+	literal bool
 	// strict = the literal reading of "leader epoch never decreases" for a
 	// candidate that raises the channel epoch (see refUpsert).
 	pending []rtCmd
@@ -61,10 +62,15 @@ func (w *c15World) run() {
 	maxBatch := 1 + tp.Intn(5)
 	dupBias := tp.Intn(3)
 	invalidOK := tp.Intn(3) == 0
+	// literal: "leader epoch never decreases" is read literally. In the other half of
+	// the runs the reference orders epochs lexicographically (channel epoch first), as
+	// the store does, so that those runs are not cut short by the recorded finding
+	// C15-K1 and every other clause keeps being checked to the end of the history.
+	w.literal = tp.Intn(2) == 0
 	memTable := []int{256 << 10, 64 << 10, 16 << 10}[tp.Intn(3)]
 	hashSlots := []uint16{3, 7}
 	r.Config = map[string]any{"proposers": nProps, "channels": nChans, "ops": ops, "nofaults": noFaults,
-		"max_batch": maxBatch, "dup_bias": dupBias, "invalid_ok": invalidOK, "memtable": memTable}
+		"max_batch": maxBatch, "dup_bias": dupBias, "invalid_ok": invalidOK, "memtable": memTable, "literal_leader_epoch": w.literal}
 	ids := []string{"chA", "chB", "chC"}
 	for i := 0; i < nChans; i++ {
 		w.chans = append(w.chans, chanRef{id: ids[i], typ: 2, hs: hashSlots[i%2]})
@@ -209,7 +215,7 @@ func (w *c15World) model(c rtCmd) c15Expect {
 		cur := w.ref[c.ch.id]
 		// the command codec canonicalises the candidate on both sides of the
 		// wire, so an unset route generation travels as its default value
-		next, out := refUpsert(cur, refNormalize(c.meta), true)
+		next, out := refUpsert(cur, refNormalize(c.meta), w.literal)
 		ln, lo := refUpsert(w.lex[c.ch.id], refNormalize(c.meta), false)
 		if lo == rtApplied {
 			w.lex[c.ch.id] = ln
@@ -399,7 +405,7 @@ func (w *c15World) commit(maxBatch, dupBias int) {
 	for _, ch := range w.chans {
 		post := w.read(ch)
 		if pre[ch.id] != nil && post != nil && !w.deleted[ch.id] {
-			if class, detail := rtRegression(*pre[ch.id], *post); class != "" {
+			if class, detail := rtRegression(*pre[ch.id], *post); class != "" && !(class == "leader-epoch-decreased" && !w.literal && post.ChannelEpoch > pre[ch.id].ChannelEpoch) {
 				sig := ""
 				if class == "leader-epoch-decreased" {
 					sig = "same-channel-epoch"
